@@ -142,7 +142,7 @@ fn layer_scorer(tier: Tier, st: &mut Stats) {
 }
 
 /// Bigram-model family for layer (2).
-fn models(tier: Tier) -> Vec<(String, Bigram)> {
+pub fn models(tier: Tier) -> Vec<(String, Bigram)> {
     let mut out = vec![];
     // cost menu: 6 pairs incl. BOS/EOS entries, all subsets, 3 cost patterns
     let menu: [(&str, &str); 6] = [("x", "x"), ("x", "y"), ("p,q", "y"), ("", "x"), ("y", ""), ("", "")];
@@ -186,6 +186,18 @@ fn models(tier: Tier) -> Vec<(String, Bigram)> {
                     let cost: Vec<(String, String, i32)> = menu.iter().enumerate().filter(|(i, _)| mask & (1 << i) != 0).map(|(i, (a, b))| (a.to_string(), b.to_string(), costs[(i + variant) % 3])).collect();
                     out.push((format!("K{k}/v{variant}/n{nids}/m{mask}"), Bigram { right: right.clone(), left: left.clone(), cost }));
                 }
+            }
+        }
+    }
+    // different widths on the two sides (the narrower side is padded with "no feature")
+    for (kr, kl) in [(1usize, 2usize), (2, 1), (1, 9), (9, 1), (2, 9), (9, 2), (3, 8), (8, 3), (7, 9), (9, 17), (17, 9), (8, 16), (16, 8)] {
+        for variant in 0..3usize {
+            let row = |side: usize, id: usize, k: usize| -> Vec<String> { (0..k).map(|p| feats[(p * (variant + 1) + id * 2 + side) % feats.len()].to_string()).collect() };
+            let right: Vec<Vec<String>> = (1..=2).map(|id| row(0, id, kr)).collect();
+            let left: Vec<Vec<String>> = (1..=2).map(|id| row(1, id, kl)).collect();
+            for mask in [1u32, 8, 16, 24, 32, 56, 63] {
+                let cost: Vec<(String, String, i32)> = menu.iter().enumerate().filter(|(i, _)| mask & (1 << i) != 0).map(|(i, (a, b))| (a.to_string(), b.to_string(), costs[(i + variant) % 3])).collect();
+                out.push((format!("Kr{kr}Kl{kl}/v{variant}/m{mask}"), Bigram { right: right.clone(), left: left.clone(), cost }));
             }
         }
     }
@@ -249,6 +261,9 @@ fn layer_connector(tier: Tier, kf: &[KnownFinding], st: &mut Stats) {
             };
             st.count(if dual { "dual_connectors_built" } else { "raw_connectors_built" });
             st.count(&format!("models_K{}", k));
+            if b.right.iter().map(|r| r.len()).max() != b.left.iter().map(|r| r.len()).max() {
+                st.count("models_with_different_widths_per_side");
+            }
             if d.verif_conn_dims() != (nr, nl) {
                 st.violation(Finding {
                     class: "connector-dims".into(),
@@ -318,8 +333,11 @@ fn layer_tokenize(tier: Tier, st: &mut Stats) {
         let sentences = all_strings(&u.alphabet, max_len);
         for &opts in &u.opts {
             let mut toks = vec![];
+            let fits_i16 = u.dict.conn.iter().all(|c| (-32768..=32767).contains(c));
             for v in [u, &m, &other] {
-                if v.dict.kind == ConnKind::Dual && k < 8 {
+                // matrix.def cells are 16-bit: the materialised matrix exists only if every sum fits;
+                // the dual connector is comparable only under the statement's 16-bit condition
+                if (v.dict.kind == ConnKind::Matrix || (v.dict.kind == ConnKind::Dual && !std::ptr::eq(v, u))) && !fits_i16 {
                     toks.push(None);
                     continue;
                 }
@@ -441,6 +459,7 @@ pub fn run(tier: Tier) -> i32 {
         "models_K1",
         "models_K9",
         "models_K17",
+        "models_with_different_widths_per_side",
         "tokenizations_compared_across_connector_kinds",
     ];
     if st.get("e5_skipped_no_avx2") == 0 && !cfg!(target_feature = "avx2") {
